@@ -653,7 +653,8 @@ func (d *driver) check(prop, tier string) int {
 		fmt.Fprintln(os.Stderr, "HARNESS: no run completed")
 		return 2
 	}
-	if agg.Inconclusive*10 > agg.Runs {
+	if agg.Inconclusive*10 > agg.Runs && violations == 0 {
+		// (a violation found stays a violation however many other runs were inconclusive)
 		fmt.Fprintf(os.Stderr, "HARNESS: %d of %d runs inconclusive\n", agg.Inconclusive, agg.Runs)
 		return 2
 	}
